@@ -668,7 +668,7 @@ pub fn serialize_ops(mut ops: &[Op]) -> Result<Vec<u8>> {
                 writeln!(f, " CS")?;
             },
 
-            Op::RenderingIntent { intent } => writeln!(f, "{} ri", intent.to_str())?,
+            Op::RenderingIntent { intent } => writeln!(f, "/{} ri", intent.to_str())?,
             Op::BeginText => writeln!(f, "BT")?,
             Op::EndText => writeln!(f, "ET")?,
             Op::CharSpacing { char_space } => writeln!(f, "{} Tc", char_space)?,
